@@ -56,7 +56,9 @@ func report(eng *Engine, prop, tier string, seed int, start time.Time, runs []*R
 	expPath := filepath.Join(verif, "expected", pid+".json")
 	var names []string
 	for _, o := range obls {
-		names = append(names, o.Name)
+		if !o.Dep {
+			names = append(names, o.Name)
+		}
 	}
 	if *flagUpdate {
 		writeJSON(expPath, names) //nolint:errcheck
@@ -101,7 +103,11 @@ func report(eng *Engine, prop, tier string, seed int, start time.Time, runs []*R
 			continue
 		}
 		if f, ok := known[o.Name]; ok {
-			knownHit = append(knownHit, fmt.Sprintf("KNOWN-FINDING: property=%s obligation=%s %s", pid, o.Name, strings.TrimSpace(strings.SplitN(f.Text, "—", 2)[len(strings.SplitN(f.Text, "—", 2))-1])))
+			kp := pid
+			if o.Dep && f.Prop != "" {
+				kp = f.Prop // a clause of another property that this proof relies on: reported under its own property
+			}
+			knownHit = append(knownHit, fmt.Sprintf("KNOWN-FINDING: property=%s obligation=%s %s", kp, o.Name, strings.TrimSpace(strings.SplitN(f.Text, "—", 2)[len(strings.SplitN(f.Text, "—", 2))-1])))
 			continue
 		}
 		counted++
@@ -109,7 +115,11 @@ func report(eng *Engine, prop, tier string, seed int, start time.Time, runs []*R
 			skipped++
 			continue
 		}
-		viols = append(viols, viol{o.Name, o.Status, o})
+		st := o.Status
+		if o.Dep {
+			st += " (a clause tagged " + strings.Join(o.Props, ",") + " that the proof of " + pid + " relies on at a call site)"
+		}
+		viols = append(viols, viol{o.Name, st, o})
 	}
 	if skipped > 0 {
 		viols = append(viols, viol{fmt.Sprintf("tool:%d further obligations were not attempted", skipped), "functions that already fail several obligations (or the run's time budget) leave their remaining obligations undecided", nil})
@@ -258,12 +268,21 @@ func report(eng *Engine, prop, tier string, seed int, start time.Time, runs []*R
 		}
 	}
 	var perObl []map[string]interface{}
+	depTotal, depDischarged := 0, 0
 	for _, o := range obls {
-		perObl = append(perObl, map[string]interface{}{"name": o.Name, "status": o.Status, "solver": o.Solver, "seconds": round3(o.Seconds), "paths": len(o.Queries)})
+		m := map[string]interface{}{"name": o.Name, "status": o.Status, "solver": o.Solver, "seconds": round3(o.Seconds), "paths": len(o.Queries)}
+		if o.Dep {
+			m["dependency_of_this_proof"] = true
+			depTotal++
+			if o.Status == "discharged" {
+				depDischarged++
+			}
+		}
+		perObl = append(perObl, m)
 	}
 	globalAssume := []string{
 		"govc (SSA semantics, VC generation) and the SMT solvers are trusted; mitigated by the must-fail corpus in /verif/selftest",
-		"int/uint are 64-bit; every string/slice length is below 2^48; integer arithmetic wraps as in Go unless a function is checked with (overflow)",
+		"int/uint are 64-bit; every string/slice length is below 2^48; integers are mathematical and every + - * on a sized integer type carries a proved no-overflow obligation (safe:overflow), explicit conversions are exact (mod 2^n)",
 		"package-level variables are never reassigned after initialisation; error-typed globals are non-nil and pairwise distinct",
 		"goroutine interleaving is not modelled: a go statement is an event, channel receives yield unconstrained values",
 		"log output and printing to stdout are effect-free; library calls terminate; no resource exhaustion",
@@ -292,6 +311,7 @@ func report(eng *Engine, prop, tier string, seed int, start time.Time, runs []*R
 			"obligation_list":          perObl,
 			"vanished_obligations":     vanished,
 			"tool_errors":              toolErrs,
+			"dependency_ring":          map[string]interface{}{"checked": ring(tier, prop), "obligations": depTotal, "discharged": depDischarged, "what": "clauses tagged with other properties only that this property's proof assumes at call sites, and everything those rest on (thorough tier)"},
 		},
 		"assumptions": globalAssume,
 		"wall_s":      round3(time.Since(start).Seconds()),
@@ -313,6 +333,8 @@ func report(eng *Engine, prop, tier string, seed int, start time.Time, runs []*R
 		os.Exit(1)
 	}
 }
+
+func ring(tier, prop string) bool { return tier == "thorough" && prop != "" && *flagFn == "" }
 
 func firstGoal(o *oblig) string {
 	if len(o.Queries) > 0 {
@@ -366,7 +388,11 @@ func parseModel(out string) map[string]string {
 func findModel(eng *Engine, q *Query) *SolveResult {
 	q.concrete = true
 	defer func() { q.concrete = false }()
-	r := solveScript(q, eng.C, filepath.Dir(q.Result.File), 20, false, q.PC, ".concrete")
+	dir := gWorkDir
+	if q.Result != nil && q.Result.File != "" {
+		dir = filepath.Dir(q.Result.File)
+	}
+	r := solveScript(q, eng.C, dir, 20, false, q.PC, ".concrete")
 	if r.Status == "sat" {
 		return r
 	}
